@@ -2,6 +2,7 @@ package proj
 
 import (
 	"fmt"
+	"sort"
 	"strings"
 )
 
@@ -13,7 +14,15 @@ type DartClass struct {
 	Ctor       []string `json:"ctor"`   // constructor arguments (this.x), in order
 	FromKeys   []string `json:"fromKeys"`
 	ToKeys     []string `json:"toKeys"`
-	FromArgs   int      `json:"fromArgs"` // number of arguments the fromJson routine passes to the constructor
+	FromArgs   int      `json:"fromArgs"`  // number of arguments the fromJson routine passes to the constructor
+	FromCalls  []string `json:"fromCalls"` // the routine applied to json['key'], aligned with FromKeys ("" when none)
+}
+
+// DartHelper describes a <id>FromJson routine as far as null is concerned.
+type DartHelper struct {
+	Name      string `json:"name"`
+	NullGuard bool   `json:"nullguard"` // the body tests `json == null`
+	Delegates string `json:"delegates"` // `return <other>FromJson(json);` : the routine everything is delegated to
 }
 
 type DartCase struct {
@@ -36,13 +45,14 @@ type DartEnum struct {
 }
 
 type DartFile struct {
-	Name    string      `json:"name"`
-	Imports []string    `json:"imports"`
-	Defs    []string    `json:"defs"` // every top-level name defined (with repetitions)
-	Uses    []string    `json:"uses"` // helper routines and type names used
-	Classes []DartClass `json:"classes"`
-	Unions  []DartUnion `json:"unions"`
-	Enums   []DartEnum  `json:"enums"`
+	Name    string       `json:"name"`
+	Imports []string     `json:"imports"`
+	Defs    []string     `json:"defs"` // every top-level name defined (with repetitions)
+	Uses    []string     `json:"uses"` // helper routines and type names used
+	Classes []DartClass  `json:"classes"`
+	Unions  []DartUnion  `json:"unions"`
+	Enums   []DartEnum   `json:"enums"`
+	Helpers []DartHelper `json:"helpers"`
 }
 
 var dartBuiltins = map[string]bool{"String": true, "int": true, "double": true, "bool": true, "num": true, "dynamic": true, "DateTime": true, "List": true,
@@ -123,7 +133,7 @@ func ParseDart(name, src string) (*DartFile, error) {
 			if t.V == "abstract" {
 				i++
 			}
-			cl := DartClass{Name: ts[i+1].V, Implements: []string{}, Fields: []string{}, Ctor: []string{}, FromKeys: []string{}, ToKeys: []string{}}
+			cl := DartClass{Name: ts[i+1].V, Implements: []string{}, Fields: []string{}, Ctor: []string{}, FromKeys: []string{}, ToKeys: []string{}, FromCalls: []string{}}
 			f.Defs = append(f.Defs, cl.Name)
 			j := i + 2
 			if j < len(ts) && ts[j].V == "implements" {
@@ -258,6 +268,32 @@ func ParseDart(name, src string) (*DartFile, error) {
 			e.Values = v
 		}
 	}
+	// null handling of the FromJson routines
+	f.Helpers = []DartHelper{}
+	var hnames []string
+	for n := range funcs {
+		if strings.HasSuffix(n, "FromJson") {
+			hnames = append(hnames, n)
+		}
+	}
+	sort.Strings(hnames)
+	for _, n := range hnames {
+		body := funcs[n]
+		h := DartHelper{Name: n}
+		for b := 0; b+2 < len(body); b++ {
+			if body[b].V == "json" && body[b+1].V == "==" && body[b+2].V == "null" {
+				h.NullGuard = true
+			}
+			if body[b].V == "json" && body[b+1].V == "=" && b+3 < len(body) && body[b+2].V == "=" && body[b+3].V == "null" {
+				h.NullGuard = true
+			}
+		}
+		// { return xFromJson ( json ) ; }
+		if len(body) == 8 && body[1].V == "return" && strings.HasSuffix(body[2].V, "FromJson") && body[3].V == "(" && body[4].V == "json" && body[5].V == ")" {
+			h.Delegates = body[2].V
+		}
+		f.Helpers = append(f.Helpers, h)
+	}
 	// struct routines
 	for k := range f.Classes {
 		c := &f.Classes[k]
@@ -266,6 +302,11 @@ func ParseDart(name, src string) (*DartFile, error) {
 			for b := 0; b+3 < len(body); b++ {
 				if body[b].V == "json" && body[b+1].V == "[" && body[b+2].K == "str" && body[b+3].V == "]" {
 					c.FromKeys = append(c.FromKeys, body[b+2].V)
+					call := ""
+					if b >= 2 && body[b-1].V == "(" && body[b-2].K == "id" {
+						call = body[b-2].V
+					}
+					c.FromCalls = append(c.FromCalls, call)
 				}
 			}
 			// arguments of the constructor call  Name( a, b, ... )
